@@ -37,6 +37,11 @@ func (m *F84Model) Distance(seq1 []uint8, seq2 []uint8, weights []float64) (floa
 
 	trS, trV, _, _, total := countMutations(seq1, seq2, m.selectedSites, weights)
 	trS, trV = trS/total, trV/total
+	// No observed substitution: the distance is exactly 0
+	// (the formulas below may give +-1e-17 because of rounding)
+	if trS == 0 && trV == 0 {
+		return 0, nil
+	}
 	if m.gamma {
 		dist = 2.0 * m.alpha * (m.a*gammaPow((1.0-trS/(2.0*m.a)-(m.a-m.b)*trV/(2.0*m.a*m.c)), m.alpha) +
 			(m.b+m.c-m.a)*gammaPow((1-trV/(2.0*m.c)), m.alpha) -
